@@ -82,6 +82,12 @@ func loadOverlay(repo, tier string, extraEnv []string, tags []string, overlay ma
 	// are renamed back to their recorded names (alpha.go)
 	overlay, ii := inlineOverlay(repo, env, tags, overlay)
 	merged, ai, srcPkgs := alphaOverlay(repo, env, tags, overlay)
+	if dir := os.Getenv("FITCHECK_DUMP_VIEW"); dir != "" {
+		// diagnostic: write the checker's view of the rewritten files
+		for name, src := range merged {
+			_ = os.WriteFile(filepath.Join(dir, filepath.Base(name)), src, 0o644)
+		}
+	}
 	c, err := loadRaw(repo, tier, env, extraEnv, tags, merged)
 	if srcPkgs != nil {
 		if err == nil {
